@@ -10,4 +10,5 @@ def run(tier, seed):
                 'leaves': 'symbolic i64 / bool; strings concrete'}
     c.outside = ['graphs with more than 3 container cells', 'two distinct cyclic values compared (non-terminating by definition)']
     c.run_family('equality', ts, ('exit', 'stdout', 'stderr-empty', 'message', 'panic', 'hang'), equality.role, par_templates=4, par_paths=4)
+    c.run_random(('exit', 'stdout', 'stderr-empty', 'panic', 'hang'))
     return c.finish()
